@@ -14,6 +14,12 @@ K = H.part("VF_K", 4)  # number of tempo events (t0 = 0 fixed, t1..t5 symbolic)
 # concrete tempos: distinct, valid 3-decimal floats (the harnesses never do float arithmetic on
 # them: the kernel is stubbed, S4)
 BPMS = [120.0, 60.5, 200.25, 87.125, 333.0, 45.0]
+AFF = {120.0: 5, 60.5: 11, 200.25: 3, 87.125: 7, 333.0: 2, 45.0: 13}   # affine clock multipliers
+
+
+def aff(d, bpm, R):
+    """The affine stand-in kernel (vf.h.Clock policy 'affine'), written again for the oracle."""
+    return d * AFF[bpm] + (R if d > 0 else 0)
 
 
 def mk_events(ticks, stamps):
@@ -73,7 +79,7 @@ def index_of_proximal(t1: int, t2: int, t3: int, t4: int, t5: int, tick: int, hi
 def timestamp_at_tick_dataflow(
     t1: int, t2: int, t3: int, t4: int, t5: int,
     s0: int, s1: int, s2: int, s3: int, s4: int, s5: int,
-    tick: int, hint: int, R: int, u: int,
+    tick: int, hint: int, R: int,
 ) -> bool:
     """
     pre: _inc(K, [t1, t2, t3, t4, t5])
@@ -86,37 +92,33 @@ def timestamp_at_tick_dataflow(
     stamps = [AbsTime(x) for x in [s0, s1, s2, s3, s4, s5][:K]]
     be = BPMEvents(events=mk_events(ticks, stamps), resolution=R)
     g = governing(ticks, tick)
-    clock = Clock("recorder", pool=[u])
+    clock = Clock("affine", mult=AFF)
     with H.abstract_time(clock):
         try:
             ts, idx = be.timestamp_at_tick(tick, start_iteration_index=hint)
         except ValueError:
             return done(hint > g)
     ok = hint <= g and idx == g
-    # exactly one kernel call, with (distance from the governing event, its tempo, the resolution)
-    ok = ok and len(clock.log) == 1
-    (d, b, r, us) = clock.log[0]
-    ok = ok and d == tick - ticks[g] and b is BPMS[g] and r == R
-    # result is the governing event's stamp plus the converted kernel result, nothing else
-    ok = ok and isinstance(ts, AbsTime) and ts.us == stamps[g].us + u
+    # the governing event's stamp plus the kernel's value for (distance from it, its tempo, the
+    # resolution) - however the implementation gets there
+    ok = ok and isinstance(ts, AbsTime) and ts.us == stamps[g].us + aff(tick - ticks[g], BPMS[g], R)
     return done(ok)
 
 
-def no_optimize_return(t1: int, t2: int, t3: int, t4: int, t5: int, tick: int, u: int) -> bool:
+def no_optimize_return(t1: int, t2: int, t3: int, t4: int, t5: int, tick: int, R: int) -> bool:
     """
     pre: _inc(K, [t1, t2, t3, t4, t5])
-    pre: tick >= 0
+    pre: tick >= 0 and R >= 1
     post: _
     """
     ticks = [0, t1, t2, t3, t4, t5][:K]
     stamps = [AbsTime(1000 * i) for i in range(K)]
-    be = BPMEvents(events=mk_events(ticks, stamps), resolution=192)
+    be = BPMEvents(events=mk_events(ticks, stamps), resolution=R)
     g = governing(ticks, tick)
-    clock = Clock("recorder", pool=[u])
+    clock = Clock("affine", mult=AFF)
     with H.abstract_time(clock):
         ts = be.timestamp_at_tick_no_optimize_return(tick)
-    (d, b, r, us) = clock.log[0]
-    return done(ts.us == stamps[g].us + u and d == tick - ticks[g] and b is BPMS[g])
+    return done(ts.us == stamps[g].us + aff(tick - ticks[g], BPMS[g], R))
 
 
 def hint_invisible(t1: int, t2: int, t3: int, t4: int, t5: int, tick: int, hint: int,
@@ -149,7 +151,7 @@ def hint_invisible(t1: int, t2: int, t3: int, t4: int, t5: int, tick: int, hint:
 RAWS = ["120000", "0", "90500", "1"]      # tempo tokens used by the builders ("0" = zero tempo)
 
 
-def bpm_event_dataflow(prev_tick: int, tick: int, R: int, prev_us: int, prev_idx: int, u: int,
+def bpm_event_dataflow(prev_tick: int, tick: int, R: int, prev_us: int, prev_idx: int,
                        has_prev: bool, ri: int) -> bool:
     """
     pre: 0 <= ri < len(RAWS)
@@ -161,7 +163,7 @@ def bpm_event_dataflow(prev_tick: int, tick: int, R: int, prev_us: int, prev_idx
     if has_prev:
         prev = BPMEvent(tick=prev_tick, timestamp=AbsTime(prev_us), bpm=BPMS[1],
                         _proximal_bpm_event_index=prev_idx)
-    clock = Clock("recorder", pool=[u])
+    clock = Clock("affine", mult=AFF)
     with H.abstract_time(clock):
         try:
             ev = BPMEvent.from_parsed_data(data, prev, R)
@@ -170,14 +172,13 @@ def bpm_event_dataflow(prev_tick: int, tick: int, R: int, prev_us: int, prev_idx
             return done(has_prev and (tick <= prev_tick or R <= 0))
     ok = ev.tick == tick and ev.bpm == int(RAWS[ri]) / 1000
     if not has_prev:
-        ok = ok and len(clock.log) == 0 and ev.timestamp.us == 0 and ev._proximal_bpm_event_index == 0
-        return done(ok)
-    ok = ok and tick > prev_tick and R > 0 and len(clock.log) == 1
+        return done(ok and ev.timestamp.us == 0 and ev._proximal_bpm_event_index == 0)
+    ok = ok and tick > prev_tick
     if not ok:
         return done(False)
-    (d, b, r, us) = clock.log[0]
-    ok = ok and d == tick - prev_tick and b is BPMS[1] and r == R
-    ok = ok and ev.timestamp.us == prev_us + u and ev._proximal_bpm_event_index == prev_idx + 1
+    # time of the new tempo event: previous stamp + kernel(distance, *previous* tempo, resolution)
+    ok = ok and (R <= 0 or ev.timestamp.us == prev_us + aff(tick - prev_tick, BPMS[1], R))
+    ok = ok and ev._proximal_bpm_event_index == prev_idx + 1
     return done(ok)
 
 
